@@ -174,7 +174,104 @@ pub fn run(ctx: &Ctx) -> i32 {
     for v in out.violations.into_iter().chain(out.known_hits) {
         rep.violation(v);
     }
+    if ctx.tier == crate::ev::Tier::Thorough || std::env::var("VERIF_FUZZ").is_ok() {
+        fuzz_stage(ctx, &mut ev, &mut rep, &corpus);
+    }
     let code = rep.finish(&mut ev);
     ev.write();
     code
+}
+
+/// Coverage-guided stage (libFuzzer through cargo-fuzz, target engine/fuzz/fuzz_targets/
+/// text_frontend.rs with the C12 and C17 oracles inside the target). The campaign is only
+/// approximately reproducible (-seed, -runs, fresh corpus copy); a crash artifact is turned into
+/// an ordinary replay and re-judged in-process, which is the reproducible unit.
+fn fuzz_stage(ctx: &Ctx, ev: &mut Evidence, rep: &mut Report, corpus: &[(String, String)]) {
+    let fuzz_dir = crate::ev::root().join("engine/fuzz");
+    let work = crate::lab::scratch_root().join("fuzz");
+    let _ = std::fs::remove_dir_all(&work);
+    let cdir = work.join("corpus");
+    let adir = work.join("artifacts");
+    std::fs::create_dir_all(&cdir).unwrap();
+    std::fs::create_dir_all(&adir).unwrap();
+    for (i, (_, t)) in corpus.iter().enumerate() {
+        if t.len() < 4000 {
+            let _ = std::fs::write(cdir.join(format!("repo{i}.llw")), t);
+        }
+    }
+    for (i, f) in ["token A B; start s; s: A [B]* | ?1 B;", "token ;", "s: (A", "/* x */ start s; s^: <1 A 1>n @m > ~ & / 'x';"].iter().enumerate() {
+        let _ = std::fs::write(cdir.join(format!("frag{i}")), f);
+    }
+    let dict = work.join("dict");
+    let mut dtext = String::new();
+    for it in ITEMS {
+        let esc: String = it.bytes().map(|b| if b.is_ascii_alphanumeric() { (b as char).to_string() } else { format!("\\x{b:02x}") }).collect();
+        dtext.push_str(&format!("\"{esc}\"\n"));
+    }
+    std::fs::write(&dict, dtext).unwrap();
+    let runs = std::env::var("VERIF_FUZZ_RUNS").ok().and_then(|s| s.parse::<u64>().ok()).unwrap_or(ctx.tier.pick(60_000, 1_500_000));
+    let build = std::process::Command::new("cargo").current_dir(&fuzz_dir).env("CARGO_NET_OFFLINE", "true").args(["+nightly", "fuzz", "build", "text_frontend"]).output();
+    match build {
+        Ok(o) if o.status.success() => {}
+        other => {
+            ev.exclude(&format!("libFuzzer stage: target could not be built ({})", other.map(|o| String::from_utf8_lossy(&o.stderr).lines().last().unwrap_or("").to_string()).unwrap_or_else(|e| e.to_string())));
+            return;
+        }
+    }
+    let jobs = ctx.threads.min(8);
+    let out = std::process::Command::new("cargo")
+        .current_dir(&fuzz_dir)
+        .env("CARGO_NET_OFFLINE", "true")
+        .args(["+nightly", "fuzz", "run", "text_frontend", cdir.to_str().unwrap(), "--"])
+        .arg(format!("-artifact_prefix={}/", adir.display()))
+        .arg(format!("-dict={}", dict.display()))
+        .arg(format!("-seed={}", 1 + ctx.seed % 1_000_000))
+        .arg(format!("-runs={}", runs / jobs as u64))
+        .args(["-max_len=2048", "-len_control=0", "-print_final_stats=1", "-timeout=20"])
+        .arg(format!("-jobs={jobs}"))
+        .arg(format!("-workers={jobs}"))
+        .output();
+    let Ok(out) = out else {
+        ev.exclude("libFuzzer stage: could not run");
+        return;
+    };
+    // statistics from the per-job logs (fuzz-<n>.log in the fuzz directory) and stderr
+    let mut execs = 0u64;
+    let mut text = String::from_utf8_lossy(&out.stderr).to_string();
+    for j in 0..jobs {
+        let p = fuzz_dir.join(format!("fuzz-{j}.log"));
+        if let Ok(t) = std::fs::read_to_string(&p) {
+            text.push_str(&t);
+            let _ = std::fs::remove_file(&p);
+        }
+    }
+    for l in text.lines() {
+        if let Some(v) = l.strip_prefix("stat::number_of_executed_units:") {
+            execs += v.trim().parse::<u64>().unwrap_or(0);
+        }
+    }
+    ev.evaluations += execs;
+    ev.label_n("libfuzzer_executions", execs);
+    ev.set("libfuzzer", json!({"runs_requested": runs, "executions": execs, "jobs": jobs, "seed_corpus_files": corpus.len() + 4}));
+    // artifacts -> ordinary replays, judged again in-process
+    if let Ok(rd) = std::fs::read_dir(&adir) {
+        for e in rd.flatten() {
+            let Ok(bytes) = std::fs::read(e.path()) else { continue };
+            let Ok(t) = String::from_utf8(bytes) else { continue };
+            let mut ev2 = Evidence::new("C12", ctx.tier, ctx.seed, "");
+            match check_text(&t, &mut ev2, "libfuzzer artifact") {
+                Err(v) => rep.violation(v),
+                Ok(()) => {
+                    let mut ev3 = Evidence::new("C17", ctx.tier, ctx.seed, "");
+                    if let Err(v) = super::c17::check_valid(&t, &mut ev3, "libfuzzer artifact") {
+                        // a formatter problem: reported under C12's run as an artifact of the shared target
+                        rep.violation(Violation { sig: format!("fuzz-c17:{}", v.sig), what: format!("(found by the shared fuzz target; C17 oracle) {}", v.what), replay: v.replay });
+                    } else {
+                        ev.exclude("libFuzzer artifact did not reproduce in-process (timeout / OOM of the fuzzer?)");
+                    }
+                }
+            }
+        }
+    }
+    let _ = std::fs::remove_dir_all(&work);
 }
